@@ -911,7 +911,9 @@ theorem admitA_walk (k : Nat) (s : Server) (n : Nat) (k' : Connect) :
     (∀ i, i ≠ n → assocGet s.clients k'.id ≠ some i → RK k (getObj s i) (getObj (admitA s n k').1 i)) ∧
     (∀ e, assocGet s.clients k'.id = some e → n ≠ e → n < s.objs.length → k'.clean = false →
         ((getObj s e).clean && (getObj s e).ver < 5) = false →
-        ∀ p, Rec (getObj s e) k p → Rec (getObj (admitA s n k').1 n) k p) := by
+        ∀ p, Rec (getObj s e) k p → Rec (getObj (admitA s n k').1 n) k p) ∧
+    (∀ e, assocGet s.clients k'.id = some e → n ≠ e → e < s.objs.length →
+        (getObj (admitA s n k').1 e).takenOver = true) := by
   unfold admitA
   extract_lets +onlyGivenNames src s0 exLive
   split
@@ -920,7 +922,8 @@ theorem admitA_walk (k : Nat) (s : Server) (n : Nat) (k' : Connect) :
       (∀ i, i ≠ n → assocGet s.clients k'.id ≠ some i → RK k (getObj s i) (getObj s' i)) ∧
       (∀ e, assocGet s.clients k'.id = some e → n ≠ e → n < s.objs.length → k'.clean = false →
         ((getObj s e).clean && (getObj s e).ver < 5) = false →
-        ∀ p, Rec (getObj s e) k p → Rec (getObj s' n) k p) := by
+        ∀ p, Rec (getObj s e) k p → Rec (getObj s' n) k p) ∧
+      (∀ e, assocGet s.clients k'.id = some e → n ≠ e → e < s.objs.length → (getObj s' e).takenOver = true) := by
     have hs0 : Surv k s s0 := (Surv.refl k s).upd rfl
     split at heq
     · rename_i e he
@@ -944,7 +947,7 @@ theorem admitA_walk (k : Nat) (s : Server) (n : Nat) (k' : Connect) :
       · rename_i hclean
         extract_lets +onlyGivenNames s2 s3 at heq
         cases heq
-        refine ⟨?_, ?_, ?_⟩
+        refine ⟨?_, ?_, ?_, ?_⟩
         · show (unsubscribeClient s1 e).clients = s.clients
           rw [unsubscribeClient_clients_sv]; exact hc1
         · intro i _ hie
@@ -959,6 +962,13 @@ theorem admitA_walk (k : Nat) (s : Server) (n : Nat) (k' : Connect) :
           have hex : ex = getObj s e := rfl
           rw [hcl, hex, h3] at this
           cases this
+        · intro e' he' _ hel
+          rw [he] at he'; cases he'
+          show (getObj (modObj s3 e _) e).takenOver = true
+          unfold modObj
+          rw [getObj_setObj_eq s3 e _ (by
+            show e < (clearInflights s2 e).objs.length
+            rw [(clearInflights_frame s2 e).len, (unsubscribeClient_frame s1 e).len, hl1]; exact hel)]
       · extract_lets +onlyGivenNames s2 ex2 rmx s2i src2 s3 s4 s5 s6 at heq
         rw [← (Prod.mk.inj heq).1]
         have hl2 : s2.objs.length = s.objs.length := (setObj_length s1 e _).trans hl1
@@ -971,7 +981,7 @@ theorem admitA_walk (k : Nat) (s : Server) (n : Nat) (k' : Connect) :
           refine foldl_inv (fun (x : Server) => x.clients = s.clients) _ _ _ hc3 ?_
           intro b fs hb
           exact hb
-        refine ⟨?_, ?_, ?_⟩
+        refine ⟨?_, ?_, ?_, ?_⟩
         · show (unsubscribeClient s4 e).clients = s.clients
           rw [unsubscribeClient_clients_sv]; exact hc4
         · intro i hin hie
@@ -1014,13 +1024,177 @@ theorem admitA_walk (k : Nat) (s : Server) (n : Nat) (k' : Connect) :
             extract_lets +onlyGivenNames rr src3 b1
             exact Rec.of_modObj (s := b1) _ rfl hb
           exact (clearInflights_sv k s5 e n (Or.inl hne)).keep p ((unsubscribeClient_sv k s4 e n).keep p r4)
+        · intro e' he' hne hel
+          rw [he] at he'; cases he'
+          have hen : e ≠ n := fun x => hne x.symm
+          have t2 : (getObj s2 e).takenOver = true := by
+            show (getObj (modObj s1 e _) e).takenOver = true
+            unfold modObj
+            rw [getObj_setObj_eq s1 e _ (by rw [hl1]; exact hel)]
+          have t3 : (getObj s3 e).takenOver = true := by
+            show (getObj (if ex2.inflight.length > 0 then _ else s2) e).takenOver = true
+            split
+            · show (getObj s2i e).takenOver = true
+              rw [show getObj s2i e = getObj s2 e from getObj_setObj_ne s2 n e _ hen]
+              exact t2
+            · exact t2
+          have t4 : (getObj s4 e).takenOver = true := by
+            refine foldl_inv (fun (x : Server) => (getObj x e).takenOver = true) _ _ _ t3 ?_
+            intro b fs hb
+            extract_lets +onlyGivenNames rr src3 b1
+            show (getObj (modObj b1 n _) e).takenOver = true
+            unfold modObj
+            rw [getObj_setObj_ne b1 n e _ hen]
+            exact hb
+          show (getObj (clearInflights s5 e) e).takenOver = true
+          rw [((clearInflights_quiet s5 e).obj e).takenOver, (unsubscribeClient_sv 0 s4 e e).takenOver]
+          exact t4
     · rename_i hnone
       have hnone : assocGet s.clients k'.id = none := hnone
       cases heq
-      exact ⟨rfl, fun i _ _ => hs0 i, fun e he => by rw [hnone] at he; cases he⟩
-  obtain ⟨h1, h2, h3⟩ := key
-  refine ⟨?_, h2, h3⟩
+      exact ⟨rfl, fun i _ _ => hs0 i, fun e he => (by rw [hnone] at he; cases he),
+        fun e he => (by rw [hnone] at he; cases he)⟩
+  obtain ⟨h1, h2, h3, h4⟩ := key
+  refine ⟨?_, h2, h3, h4⟩
   show assocSet s'.clients k'.id n = _
   rw [h1]
+
+theorem admitConnack_keep (k : Nat) (s : Server) (n conn : Nat) (present : Bool) (x : Nat) (p : Str)
+    (r : Rec (getObj s x) k p) : Rec (getObj (admitConnack s n conn present).1 x) k p := by
+  unfold admitConnack
+  extract_lets +onlyGivenNames cl
+  split
+  rename_i s' seiOut heq
+  show Rec (getObj s' x) k p
+  split at heq
+  · cases heq
+    by_cases hx : x = n
+    · subst hx; exact Rec.of_modObj _ rfl r
+    · unfold modObj; rw [getObj_setObj_ne s n x _ hx]; exact r
+  · cases heq; exact r
+
+/-- `ResendInflightMessages`: only PUBACK / PUBCOMP records are dropped after being resent -/
+theorem admitC_keep (k : Nat) (s : Server) (n : Nat) (k' : Connect) (present : Bool) (hw : ObjWF (getObj s n))
+    (x : Nat) (p : Str) (r : Rec (getObj s x) k p) : Rec (getObj (admitC s n k' present).1 x) k p := by
+  unfold admitC
+  extract_lets +onlyGivenNames s1
+  split
+  · refine foldl_inv_mem (fun (acc : Server × List Out) => Rec (getObj acc.1 x) k p) _ _ _ r ?_
+    intro acc m hm h
+    have hm : m ∈ (getObj s n).inflight := mem_permuteBy _ _ _ hm
+    extract_lets +onlyGivenNames m' o s'
+    show Rec (getObj s' x) k p
+    show Rec (getObj (if (m.type == 4 || m.type == 7) = true then _ else acc.1) x) k p
+    split
+    · rename_i ht
+      split
+      rename_i c' ok heq
+      extract_lets +onlyGivenNames s''
+      have goal : Rec (getObj s'' x) k p := by
+        show Rec (getObj (setObj acc.1 n c') x) k p
+        by_cases hx : x = n
+        · subst hx
+          rcases getObj_setObj_self_cases acc.1 x c' with e | e <;> rw [e]
+          · have hne : m.id ≠ k := r.ne_of_mem hw.ids_nodup hm (by
+              have h3 : (m.type == 3) = false := by
+                rcases Bool.or_eq_true_iff.mp ht with h4 | h7
+                · have : m.type = 4 := by simpa using h4
+                  simp [this]
+                · have : m.type = 7 := by simpa using h7
+                  simp [this]
+              have h6 : (m.type == 6) = false := by
+                rcases Bool.or_eq_true_iff.mp ht with h4 | h7
+                · have : m.type = 4 := by simpa using h4
+                  simp [this]
+                · have : m.type = 7 := by simpa using h7
+                  simp [this]
+              simp [recOk, h3, h6])
+            have := (RK.flDelete_ne' k (getObj acc.1 x) m.id hne).keep p h
+            rw [heq] at this
+            exact this
+          · exact h
+        · rw [getObj_setObj_ne acc.1 n x c' hx]; exact h
+      split
+      · exact goal
+      · exact goal
+    · exact h
+  · exact r
+
+/-- `attachClient` from the admission to the read loop: the session of `cid` keeps the record — in the object it
+    was in, or (resumption / take-over by a CONNECT for `cid` without Clean Start) in the connecting object `n` -/
+theorem admitClient_holds (k : Nat) (p cid : Str) (s : Server) (n conn : Nat) (k' : Connect) (i : Nat) (hw : WF s)
+    (hn : n < s.objs.length) (hnid : (getObj s n).id = k'.id) (hni : n ≠ i)
+    (h : HoldsAt s cid k p i) (hne : ¬ EndsTakeover s cid k') :
+    HoldsAt (admitClient s n conn k').1 cid k p (if k'.id = cid then n else i) := by
+  obtain ⟨hA1, hA2, hA3, hA4⟩ := admitA_walk k s n k'
+  have hil := h.lt hw
+  unfold admitClient
+  split
+  rename_i s1 o1 present exLive h1
+  rw [h1] at hA1 hA2 hA3 hA4
+  have w1 : WF s1 := by have := admitA_wf s n k' hw hn hnid; rw [h1] at this; exact this
+  have k1 : Keep s s1 := by have := admitA_keep s n k'; rw [h1] at this; exact this
+  have hex : ∀ e, exLive = some e → assocGet s.clients k'.id = some e := by
+    intro e he
+    exact admitA_exLive_cnt s n k' e (by rw [h1]; exact he)
+  have H1 : HoldsAt s1 cid k p (if k'.id = cid then n else i) ∧ (k'.id = cid → (getObj s1 i).takenOver = true) := by
+    by_cases hk : k'.id = cid
+    · rw [if_pos hk]
+      have hreg : assocGet s.clients k'.id = some i := by rw [hk]; exact h.1
+      have hE : ¬ (k'.clean = true ∨ ((getObj s i).clean && decide ((getObj s i).ver < 5)) = true) := by
+        intro x
+        apply hne
+        refine ⟨hk, ?_⟩
+        rcases x with x | x
+        · exact Or.inl x
+        · right
+          rw [h.1]
+          exact x
+      have hclean : k'.clean = false := Bool.eq_false_iff.mpr (fun e => hE (Or.inl e))
+      have h3 : ((getObj s i).clean && decide ((getObj s i).ver < 5)) = false :=
+        Bool.eq_false_iff.mpr (fun e => hE (Or.inr e))
+      refine ⟨⟨by rw [hA1, assocGet_assocSet, if_pos hk.symm], hA3 i hreg hni hn hclean h3 p h.2⟩,
+        fun _ => hA4 i hreg hni hil⟩
+    · rw [if_neg hk]
+      have hnreg : assocGet s.clients k'.id ≠ some i := fun x => hk (hw.reg_unique x h.1)
+      exact ⟨⟨by rw [hA1, assocGet_assocSet, if_neg (fun x => hk x.symm)]; exact h.1,
+        (hA2 i (Ne.symm hni) hnreg).keep p h.2⟩, fun x => absurd x hk⟩
+  generalize (if k'.id = cid then n else i) = j at H1 ⊢
+  split
+  rename_i s2 o2 h2
+  have g2 : Good s1 s2 := by have := admitConnack_good s1 n conn present; rw [h2] at this; exact this
+  have q2 := admitConnack_quiet s1 n conn present
+  rw [h2] at q2
+  have H2 : HoldsAt s2 cid k p j := by
+    refine ⟨by rw [q2.clients]; exact H1.1.1, ?_⟩
+    have := admitConnack_keep k s1 n conn present j p H1.1.2
+    rw [h2] at this; exact this
+  have T2 : k'.id = cid → (getObj s2 i).takenOver = true := fun hk => by
+    rw [(q2.obj i).takenOver]; exact H1.2 hk
+  have w2 : WF s2 := w1.of_good g2
+  have ids2 : ∀ x, (getObj s2 x).id = (getObj s x).id := fun x => (g2.ids x).trans (k1.ids x)
+  split
+  rename_i s3 o4 h3
+  have H3 : HoldsAt s3 cid k p j ∧ WF s3 := by
+    split at h3
+    · rename_i e
+      have he := hex e rfl
+      have hide : (getObj s e).id = k'.id := (hw.clients_valid _ _ (assocGet_mem _ _ _ he)).2
+      have := detach_holds k p cid s2 e true j H2 (H2.id w2) (by
+        intro hid
+        have hk : k'.id = cid := by rw [← hide, ← ids2 e]; exact hid
+        have hei : e = i := by
+          rw [hk, h.1] at he; cases he; rfl
+        unfold endsWithConn0
+        rw [hei, T2 hk]; simp)
+      rw [h3] at this
+      exact ⟨this, by have := detach_wf s2 e true w2; rw [h3] at this; exact this⟩
+    · cases h3; exact ⟨H2, w2⟩
+  split
+  rename_i s4 o3 h4
+  have := admitC_keep k s3 n k' present (H3.2.allWF n) j p H3.1.2
+  have q4 := admitC_quiet s3 n k' present
+  rw [h4] at this q4
+  exact ⟨by rw [q4.clients]; exact H3.1.1, this⟩
 
 end Mochi.Broker
